@@ -80,6 +80,35 @@ def install(I):
     ext["sys"] = {"version_info": TupleVal((3, 12, 1)), "platform": "linux"}
     ext["textwrap"] = {"dedent": ident}
 
+    # ---- re: concrete strings are matched by the real engine; symbolic ones by regex derivatives (fmtterms)
+    import re as _re
+
+    def re_compile(ctx, pattern, flags=0):
+        rx = _re.compile(pattern, flags)
+
+        def match(ctx, s, kind="match"):
+            s2 = B.enum_str(s)
+            if isinstance(s2, str):
+                m = getattr(rx, kind)(s2)
+                if m is None:
+                    return None
+                groups = m.groups()
+                return Opaque(None, "re.Match", {"truth": lambda ctx: True, "getattr": lambda ctx, n: Builtin("group", lambda ctx, k=0: m.group(k)) if n == "group" else
+                                                  Builtin("groups", lambda ctx: TupleVal(groups)) if n == "groups" else None})
+            from . import fmtterms
+            return fmtterms.regex_match(I, ctx, pattern, s, kind)
+
+        def ga(ctx, name):
+            if name in ("match", "fullmatch", "search"):
+                return Builtin("re." + name, lambda ctx, s: match(ctx, s, name))
+            if name == "pattern":
+                return pattern
+            from .interp import _MISSING
+            return _MISSING
+        return Opaque(None, "re.Pattern", {"getattr": ga, "pattern": pattern})
+    ext["re"] = {"compile": Builtin("re.compile", re_compile),
+                 "match": Builtin("re.match", lambda ctx, p, s, flags=0: I.call(ctx, I.getattr(ctx, re_compile(ctx, p, flags), "match"), [s], {}))}
+
     # ---- dates -----------------------------------------------------------------
     install_dates(I, cls)
 
